@@ -77,6 +77,7 @@ const (
 	clChanSent   = "f:chan.$sent"
 	clChanN      = "f:chan.$nsent"
 	clChanClosed = "f:chan.$closed"
+	clChanRecv   = "f:chan.$nrecv"
 )
 
 var chanSentSort = term.Arr(term.Int, term.Int)
@@ -89,6 +90,8 @@ func chanGhostSort(name string) (string, *term.Sort) {
 		return clChanN, term.Int
 	case "closed":
 		return clChanClosed, term.Bool
+	case "nrecv":
+		return clChanRecv, term.Int
 	}
 	return "", nil
 }
@@ -106,6 +109,7 @@ func (x *Exec) proofMakeChan(st *State, ins *ssa.MakeChan) {
 	x.chanSet(st, clChanSent, chanSentSort, ref, term.ConstArr(chanSentSort, term.I(0)))
 	x.chanSet(st, clChanN, term.Int, ref, term.I(0))
 	x.chanSet(st, clChanClosed, term.Bool, ref, term.False)
+	x.chanSet(st, clChanRecv, term.Int, ref, term.I(0))
 	x.set(st, ins, VT{ref, ins.Type()})
 }
 
@@ -159,8 +163,9 @@ func (x *Exec) proofGo(st *State, ins *ssa.Go) {
 		args[i] = x.get(st, a)
 	}
 	x.pendingBinds = binds
-	x.spawning = true
-	defer func() { x.spawning = false }()
+	// the contract is applied as for a call: precondition and frame are obligations, the
+	// goroutine's effects are those of its completed run (see proofRecv for why that is what its
+	// single consumer observes); termination of the goroutine is its own variant obligations
 	x.applyContract(st, fn, spec, fn.Signature, args, ins.Pos(), "go "+fnName(fn))
 }
 
@@ -321,7 +326,39 @@ func (x *Exec) doClose(st *State, chv Val) {
 	ch.closed = true
 }
 
+// proofRecv: the k-th receive returns the k-th value of the channel's sent sequence (ghost counter
+// nrecv); when everything sent has been received the channel must be closed (otherwise the
+// receive would block for ever: obligation chan/noblock) and the zero value / ok == false is
+// returned. The producer's contract has been applied at the go statement (its effects on the
+// channel ghost are those of its completed run: the sent sequence only grows, so this is what
+// the receiver sees in every schedule of a single-producer pipeline).
+func (x *Exec) proofRecv(st *State, ins *ssa.UnOp) {
+	ref := x.getT(st, ins.X)
+	elem := ins.X.Type().Underlying().(*types.Chan).Elem()
+	if cs := comps(elem); len(cs) != 1 || cs[0].sort != term.Int {
+		x.fail("proof-mode channels carry integer-like elements only")
+	}
+	x.oblige(st, "nil", "receive from nil channel", term.Ne(ref, term.I(0)), ins.Pos())
+	n := x.chanGet(st, clChanN, term.Int, ref)
+	r := x.chanGet(st, clChanRecv, term.Int, ref)
+	avail := term.Lt(r, n)
+	x.oblige(st, "chan", "noblock: every value sent has been received and the channel is not closed", term.Or(avail, x.chanGet(st, clChanClosed, term.Bool, ref)), ins.Pos())
+	x.oblige(st, "frame", "receive", x.allowed(clChanRecv, ref, nil), ins.Pos())
+	v := term.Ite(avail, term.Select(x.chanGet(st, clChanSent, chanSentSort, ref), r), term.I(0))
+	x.chanSet(st, clChanRecv, term.Int, ref, term.Ite(avail, term.Add(r, term.I(1)), r))
+	val := mkVal(elem, []*T{v})
+	if ins.CommaOk {
+		x.set(st, ins, VTuple{val, VT{avail, types.Typ[types.Bool]}})
+	} else {
+		x.set(st, ins, val)
+	}
+}
+
 func (x *Exec) doRecv(st *State, ins *ssa.UnOp) {
+	if x.Mode == ModeProof {
+		x.proofRecv(st, ins)
+		return
+	}
 	x.needUnwind("channel receive")
 	ch := x.chanOf(x.get(st, ins.X))
 	s := x.sched()
